@@ -71,6 +71,8 @@ func (router *Router) resendLost(count uint16) {
 	router.sendMu.Lock()
 	defer router.sendMu.Unlock()
 
+	verifTrace("lost-locked", int64(count)*1000)
+
 	// Make sure not to overflow our retainer list.
 	if int(count) > router.retainer.Len() {
 		count = uint16(router.retainer.Len())
